@@ -134,6 +134,13 @@ Theorem C32_novfs_agrees_guarded : forall rs ops x,
 Proof. exact novfs_agrees_guarded. Qed.
 Print Assumptions C32_novfs_agrees_guarded.
 
+(* a server that lacks the post-1.12 verbs (client-side VFS fallbacks) is the same machine as the
+   current server, except for GetRev on a repository hit by the iter_revisions discrepancy *)
+Theorem C32_oldsrv_agrees_guarded : forall rs ops x,
+  old_quirk_free rs ops = true -> run (cfg_old rs) x ops = run (cfg_vfs rs) x ops.
+Proof. exact oldsrv_agrees_guarded. Qed.
+Print Assumptions C32_oldsrv_agrees_guarded.
+
 (* the property at the level of the specification: outside the three recorded discrepancies
    (candidate findings) the smart-server path and the local path are the same machine *)
 Theorem C32_modes_agree_guarded : forall rs ops x,
